@@ -158,6 +158,7 @@ Section CtxFrame.
     fo_bind_tac fo_push_to_block2. intros r. destruct r as [o1|o1]; [|apply fo_ret].
     destruct (a_close_obj p); [|apply fo_ret].
     destruct (r_state o1); try apply fo_ret.
+    destruct (r_writer o1); [|apply fo_ret].
     fo_bind_tac fo_error. intros o2. apply fo_ret.
   Qed.
 End CtxFrame.
@@ -1090,7 +1091,7 @@ Section NoCodeMulti.
         * intros Hnc. pose proof (H2 [] p evs eq_refl Ht) as K. cbn [fdt_of filter] in K. rewrite app_nil_r in K.
           destruct (recoverable foti Ld preF) eqn:R.
           { exfalso. apply Hnc. exact (covered_incl' _ _ _ _ _ _ (recF_cov _ R) IF). }
-          destruct (K eq_refl) as (K1 & K2 & K3). split; [exact Ht|]. split; [exact K1|]. split; [exact K2|]. split; [exact K3|exact Gp].
+          destruct (K eq_refl) as (K1 & K2 & _). split; [exact Ht|]. split; [exact K1|]. split; [exact K2|exact Gp].
         * intros Hc. pose proof (H4 [] p (obj_of evs) (E2 evs) Hc) as K. cbn [app] in K.
           exact (covered_incl' _ _ _ _ _ _ (recO_cov _ K) (incl_snoc preO p sO IO)).
         * apply (IH preF (preO ++ [p])); try assumption.
